@@ -63,6 +63,7 @@ Silent(p) == \/ PinDone(p) \/ DeferSched(p) \/ DeferPut(p) \/ FlushSched(p) \/ R
              \/ Fin1(p) \/ Fin2(p) \/ Fin3(p)
              \/ (pc[p] = "adv_scan" /\ reg[p].scan = {} /\ AdvScan(p))     \* the scan is over: no site of its own
              \/ (pc[p] = "repin1" /\ reg[p].e = lep[p] /\ Repin1(p))       \* nothing to store: the code skips the store site
+             \/ (pc[p] = "fin1" /\ bag[p] = <<>> /\ Rec[l].thr[p].site = 120 /\ CallSub(p, "push0", "fin2") /\ UAll)  \* finalize pushes a bag of internal garbage
 Atomic(p) == \/ PinRead(p) \/ PinPublish(p) \/ PinValidate(p) \/ PinReset(p)
              \/ Adv0(p) \/ AdvScan(p) \/ AdvStore(p) \/ Push0(p) \/ Push1(p) \/ ColPop(p)
              \/ Repin0(p) \/ Repin1(p) \/ UnpinStore(p) \/ Fin0(p)
@@ -86,7 +87,9 @@ TCall(p, n) ==
              /\ UNCHANGED <<gep, lep, lpin, gc, hc, coll, must, bag, queue, alive, ug, inst, ran>>
        [] n = "flush" ->
              /\ gc[p] > 0
-             /\ IF bag[p] # <<>> THEN CallSub(p, "push0", "flush_sched") ELSE Goto(p, "flush_sched") /\ UNCHANGED ret
+             \* (the real bag may hold only the collector's own garbage - an unlinked registry entry, a retired queue
+             \*  node - which the model abstracts: it is pushed all the same, as a bag without functions)
+             /\ IF bag[p] # <<>> \/ Rec[l].thr[p].bag > 0 THEN CallSub(p, "push0", "flush_sched") ELSE Goto(p, "flush_sched") /\ UNCHANGED ret
              /\ UNCHANGED <<gep, lep, lpin, gc, hc, coll, must, bag, queue, alive, reg, ug, inst, act, dep, st, ran>>
        [] n \in {"react", "react_after", "react_after_panic"} ->
              /\ ug[p] > 0
